@@ -37,6 +37,9 @@ DESIGNED = [
      "variant": {"carrier": "dense", "designation": "blocked", "container": "dict", "int_h0": False, "h0_noise": 424242, "scale_exp": 0}},
     {"hermitian": True, "sizes": [2, 2], "E": [2, 5, 9, 12], "fd_tuple": [1],
      "variant": {"carrier": "dense", "designation": "blockseries-blocked", "container": "dict", "int_h0": False, "h0_noise": 434343, "scale_exp": 0}},
+    # nested block lists in very small units (2^-70, atol in the same units)
+    {"hermitian": True, "sizes": [2, 2], "E": [1, 4, 8, 11],
+     "variant": {"carrier": "dense", "designation": "blocked", "container": "dict", "int_h0": False, "scale_exp": -70}},
     {"hermitian": True, "sizes": [2, 2], "E": [0, 0, 2, 5], "fd_tuple": [0]},                        # an identically zero H_0 block, fully diagonalised
     {"hermitian": False, "sizes": [2, 1, 2], "E": [0, 0, 3, 7, 7], "fd_tuple": [0, 2]},              # a zero block and a degenerate one, both fully diagonalised
     {"hermitian": True, "sizes": [2, 2], "E": [1, 3, 0, 0], "variant": {"carrier": "dense", "designation": "indices", "container": "dict", "int_h0": False, "scale_exp": 0}},                                         # an identically zero H_0 block that is not the first one, equal block sizes
